@@ -320,17 +320,20 @@ Inductive getter_value :=
 Definition UB_unwrap_unchecked : failkind := OOB.
 Definition NoFromImpl : failkind := AssertFail.
 
-Definition getter (d : device) (f : field) (p : Z) : outcome getter_value :=
+(* enums = collect_enums d, emitted = emitted_enums d (passed in so that tables over all bit patterns compute
+   them once) *)
+Definition getter_with (enums : list (enum_def * base_type * Z)) (emitted : list eenum)
+           (f : field) (p : Z) : outcome getter_value :=
   let raw := raw_of_pattern (f_base f) (field_width f) p in
-  match conv_choice (collect_enums d) f with
+  match conv_choice enums f with
   | CMNone | CMBool => Ok (GPlain raw)
   | CMTryInto n =>
-    match resolve (emitted_enums d) n with
+    match resolve emitted n with
     | Some e => Ok (GResult (from_num e raw))
     | None => Ok (GPlain raw)
     end
   | CMUnsafeInto n =>
-    match resolve (emitted_enums d) n with
+    match resolve emitted n with
     | Some e => match from_num e raw with
                 | CVal x => Ok (GEnum x)
                 | CErr _ _ => Fail UB_unwrap_unchecked
@@ -338,12 +341,15 @@ Definition getter (d : device) (f : field) (p : Z) : outcome getter_value :=
     | None => Ok (GPlain raw)
     end
   | CMInto n =>
-    match resolve (emitted_enums d) n with
+    match resolve emitted n with
     | Some e => if ee_fallible e then Fail NoFromImpl
                 else match from_num e raw with CVal x => Ok (GEnum x) | CErr _ _ => Fail NoFromImpl end
     | None => Ok (GPlain raw)
     end
   end.
+
+Definition getter (d : device) (f : field) (p : Z) : outcome getter_value :=
+  getter_with (collect_enums d) (emitted_enums d) f p.
 
 (* ------------------------------------------------------------------ *)
 (* Specification, written from the text of C15                          *)
@@ -517,13 +523,14 @@ Definition show_method (m : conv_method) : string :=
   end.
 
 (* one line per field that has a conversion: object.field method | getter table over all bit patterns *)
-Definition c07_field_line (d : device) (obj : string) (f : field) : list string :=
+Definition c07_field_line (enums : list (enum_def * base_type * Z)) (emitted : list eenum)
+           (obj : string) (f : field) : list string :=
   match f_conv f with
   | None => []
   | Some _ =>
     let w := field_width f in
-    [obj ++ "." ++ f_name f ++ " " ++ show_method (conv_choice (collect_enums d) f) ++ " | " ++
-     rle 0 (2 ^ w) (fun p => token_of_getter (raw_of_pattern (f_base f) w p) (getter d f p))]
+    [obj ++ "." ++ f_name f ++ " " ++ show_method (conv_choice enums f) ++ " | " ++
+     rle 0 (2 ^ w) (fun p => token_of_getter (raw_of_pattern (f_base f) w p) (getter_with enums emitted f p))]
   end.
 
 (* one line per emitted enum: the From/TryFrom table over every raw value of a w-bit field, the number Into gives
@@ -548,9 +555,11 @@ Definition c07_enum_line (t : enum_def * base_type * Z) : string :=
 Definition c07_result (d : device) : string :=
   match enum_values_check d with
   | VOk =>
+    let enums := collect_enums d in
+    let emitted := emitted_enums d in
     String.concat (String (ascii_of_nat 10) "")
-      (map c07_enum_line (collect_enums d) ++
-       flat_map (fun o => flat_map (c07_field_line d (object_name o)) (List.concat (object_field_sets o)))
+      (map c07_enum_line enums ++
+       flat_map (fun o => flat_map (c07_field_line enums emitted (object_name o)) (List.concat (object_field_sets o)))
                 (preorder_objects (d_objects d)))
   | v => show_verdict v
   end.
